@@ -12,7 +12,6 @@ package main
 //     equal-length lists are compared element-wise over the full range.
 
 import (
-	"fmt"
 	"go/ast"
 	"go/token"
 	"go/types"
@@ -209,12 +208,6 @@ func (a *c15) toleranceShape(fd *ast.FuncDecl) string {
 	return "ok"
 }
 
-// isSliceOfMembers: receiver types whose Similar must check member counts.
-func sliceLike(t types.Type) bool {
-	_, ok := t.Underlying().(*types.Slice)
-	return ok
-}
-
 type c15env struct {
 	recv     *types.Var
 	arg      *types.Var
@@ -227,296 +220,6 @@ type c15env struct {
 	pa, pb types.Object
 }
 
-func (a *c15) method(tn string, m *types.Func) {
-	fd := a.c.P.Decl(m)
-	name := a.c.P.FuncName(m)
-	sig := m.Type().(*types.Signature)
-	recvT := sig.Recv().Type()
-	params := paramVars(a.info, fd.Type)
-	if len(params) != 2 || params[0] == nil {
-		a.c.Unk("C15.R2", name, fd.Pos(), "unexpected signature")
-		return
-	}
-	env := &c15env{recv: receiverVar(a.info, fd), arg: params[0], recvType: recvT, scope: newFnScope(a.info, fd.Body),
-		argAlias: map[types.Object]bool{}, okVars: map[types.Object]bool{}}
-	// discover aliases of g.(T)
-	ast.Inspect(fd.Body, func(n ast.Node) bool {
-		switch n := n.(type) {
-		case *ast.AssignStmt:
-			if len(n.Rhs) == 1 {
-				if ta, ok := unparen(n.Rhs[0]).(*ast.TypeAssertExpr); ok && ta.Type != nil && isObj(a.info, ta.X, env.arg) {
-					if t := a.info.TypeOf(ta.Type); t != nil && types.Identical(t, recvT) {
-						if o := objOf(a.info, n.Lhs[0]); o != nil {
-							env.argAlias[o] = true
-						}
-						if len(n.Lhs) == 2 {
-							if o := objOf(a.info, n.Lhs[1]); o != nil {
-								env.okVars[o] = true
-							}
-						}
-					}
-				}
-			}
-		case *ast.TypeSwitchStmt:
-			op, cls := typeSwitch(a.info, n)
-			if op != nil && isObj(a.info, op, env.arg) {
-				for _, cl := range cls {
-					if cl.Bound != nil && len(cl.Types) == 1 && cl.Types[0] != nil && types.Identical(cl.Types[0], recvT) {
-						env.argAlias[cl.Bound] = true
-					}
-				}
-			}
-		}
-		return true
-	})
-	needLen := sliceLike(recvT)
-	badLen, badType, trueReturns := a.walk(fd, env, needLen, true)
-	if needLen {
-		if len(badLen) == 0 {
-			a.c.OK("C15.R1", name, fd.Pos(), "all %d possibly-true results are length-checked", trueReturns)
-		} else {
-			a.c.Bad("C15.R1", name, badLen[0].Pos(), "possibly-true result `%s` reached without any test that fails when the member counts of receiver and argument differ (so Similar is asymmetric: a ⊂ b gives a.Similar(b) ≠ b.Similar(a))", src(badLen[0]))
-		}
-	}
-	if trueReturns == 0 {
-		a.c.Unk("C15.R2", name, fd.Pos(), "no possibly-true result found")
-	} else if len(badType) == 0 {
-		a.c.OK("C15.R2", name, fd.Pos(), "possibly-true results only under argument type %s", typeName(recvT))
-	} else {
-		a.c.Bad("C15.R2", name, badType[0].Pos(), "possibly-true result `%s` without establishing that the argument has type %s", src(badType[0]), typeName(recvT))
-	}
-}
-
-// isA / isB: does expression e denote the whole receiver / whole argument collection?
-func (a *c15) isA(env *c15env, e ast.Expr) bool {
-	e = env.scope.canon(e)
-	if env.pa != nil {
-		return objOf(a.info, e) == env.pa
-	}
-	return env.recv != nil && objOf(a.info, e) == env.recv
-}
-func (a *c15) isB(env *c15env, e ast.Expr) bool {
-	e = env.scope.canon(e)
-	if env.pb != nil {
-		return objOf(a.info, e) == env.pb
-	}
-	if o := objOf(a.info, e); o != nil && env.argAlias[o] {
-		return true
-	}
-	if ta, ok := e.(*ast.TypeAssertExpr); ok && ta.Type != nil && isObj(a.info, ta.X, env.arg) {
-		if t := a.info.TypeOf(ta.Type); t != nil && types.Identical(t, env.recvType) {
-			return true
-		}
-	}
-	return false
-}
-
-// lenAtom: does (e == truth) establish len(A) == len(B)?
-func (a *c15) lenAtom(env *c15env, e ast.Expr, truth bool) bool {
-	b, ok := unparen(e).(*ast.BinaryExpr)
-	if !ok {
-		return false
-	}
-	if !((b.Op == token.EQL && truth) || (b.Op == token.NEQ && !truth)) {
-		return false
-	}
-	x, y := a.lenOperand(env, b.X), a.lenOperand(env, b.Y)
-	return (x == 1 && y == 2) || (x == 2 && y == 1)
-}
-
-// lenOperand: 1 if e is len(A), 2 if len(B), following single-def locals.
-func (a *c15) lenOperand(env *c15env, e ast.Expr) int {
-	af := env.scope.aff(e)
-	if !af.ok || af.Of == nil || af.K != 0 {
-		return 0
-	}
-	if a.isA(env, af.Of) {
-		return 1
-	}
-	if a.isB(env, af.Of) {
-		return 2
-	}
-	return 0
-}
-
-// impliesLen: is the boolean expression e true only when len(A)==len(B)?
-func (a *c15) impliesLen(env *c15env, e ast.Expr) bool {
-	e = unparen(e)
-	if a.lenAtom(env, e, true) {
-		return true
-	}
-	switch x := e.(type) {
-	case *ast.BinaryExpr:
-		if x.Op == token.LAND {
-			return a.impliesLen(env, x.X) || a.impliesLen(env, x.Y)
-		}
-		if x.Op == token.LOR {
-			return a.impliesLen(env, x.X) && a.impliesLen(env, x.Y)
-		}
-		// final emptiness test of the unmatched remainder: len(R) == 0 with R := make([]T, len(B))
-		if x.Op == token.EQL {
-			for _, pair := range [][2]ast.Expr{{x.X, x.Y}, {x.Y, x.X}} {
-				if k, ok := constInt(a.info, pair[1]); ok && k == 0 {
-					if la := lenArg(a.info, pair[0]); la != nil {
-						if a.isRemainder(env, la) {
-							return true
-						}
-					}
-				}
-			}
-		}
-	case *ast.CallExpr:
-		f := callee(a.info, x)
-		if f != nil && a.c.P.Decl(f) != nil && f.Type().(*types.Signature).Recv() == nil {
-			// helper(A, B, ...) in either order
-			ia, ib := -1, -1
-			for i, arg := range x.Args {
-				if a.isA(env, arg) {
-					ia = i
-				} else if a.isB(env, arg) {
-					ib = i
-				}
-			}
-			if ia >= 0 && ib >= 0 && a.helperChecksLen(f, ia, ib) {
-				return true
-			}
-		}
-	}
-	return false
-}
-
-// isRemainder: e is a local slice created as make([]T, len(B)) (one index per
-// member of B) from which matched indices are removed.
-func (a *c15) isRemainder(env *c15env, e ast.Expr) bool {
-	o := objOf(a.info, e)
-	if o == nil {
-		return false
-	}
-	first := true
-	ok := false
-	for _, d := range env.scope.defs[o] {
-		if first {
-			first = false
-			if call, isCall := unparen(d).(*ast.CallExpr); isCall && builtinName(a.info, call) == "make" && len(call.Args) >= 2 {
-				if a.lenOperand(env, call.Args[1]) == 2 {
-					ok = true
-				}
-			}
-		}
-	}
-	return ok
-}
-
-func (a *c15) helperChecksLen(f *types.Func, i, j int) bool {
-	key := a.c.P.FuncName(f) + "#" + string(rune('0'+i)) + string(rune('0'+j))
-	switch a.summary[key] {
-	case 1:
-		return true
-	case 2, 3:
-		return false
-	}
-	a.summary[key] = 3 // in progress
-	fd := a.c.P.Decl(f)
-	params := paramVars(a.info, fd.Type)
-	res := false
-	if i < len(params) && j < len(params) && params[i] != nil && params[j] != nil {
-		env := &c15env{scope: newFnScope(a.info, fd.Body), pa: params[i], pb: params[j], argAlias: map[types.Object]bool{}, okVars: map[types.Object]bool{}}
-		badLen, _, _ := a.walk(fd, env, true, false)
-		res = len(badLen) == 0
-	}
-	if res {
-		a.summary[key] = 1
-	} else {
-		a.summary[key] = 2
-	}
-	return res
-}
-
-// walk runs the path analysis; returns the possibly-true returns lacking the
-// length fact / the type fact, and the number of possibly-true returns.
-func (a *c15) walk(fd *ast.FuncDecl, env *c15env, needLen, needType bool) (badLen, badType []ast.Node, trueReturns int) {
-	seenLen := map[ast.Node]bool{}
-	seenType := map[ast.Node]bool{}
-	seenTrue := map[ast.Node]bool{}
-	cl := &FactsClient{}
-	cl.OnBranch = func(cond ast.Expr, truth bool, s Facts) Facts {
-		for _, at := range conjuncts(cond, truth) {
-			if a.lenAtom(env, at.E, at.Truth) {
-				s["len"] = true
-			}
-			if o := objOf(a.info, at.E); o != nil && env.okVars[o] && at.Truth {
-				s["type"] = true
-			}
-		}
-		return s
-	}
-	cl.OnTypeCase = func(sw *ast.TypeSwitchStmt, cc *ast.CaseClause, s Facts) Facts {
-		op, cls := typeSwitch(a.info, sw)
-		if op == nil || env.arg == nil || !isObj(a.info, op, env.arg) {
-			return s
-		}
-		for _, c := range cls {
-			if c.Clause == cc && len(c.Types) == 1 && c.Types[0] != nil && types.Identical(c.Types[0], env.recvType) {
-				s["type"] = true
-			}
-		}
-		return s
-	}
-	cl.OnReturn = func(r *ast.ReturnStmt, s Facts) {
-		if r == nil || len(r.Results) != 1 {
-			if r != nil || fd.Type.Results != nil {
-				var n ast.Node = fd
-				if r != nil {
-					n = r
-				}
-				if needLen && !seenLen[n] {
-					seenLen[n] = true
-					badLen = append(badLen, n)
-				}
-			}
-			return
-		}
-		e := r.Results[0]
-		if v := constOf(a.info, e); v != nil && v.String() == "false" {
-			return
-		}
-		if !seenTrue[r] {
-			seenTrue[r] = true
-			trueReturns++
-		}
-		if needLen && !s["len"] && !a.impliesLen(env, e) && !seenLen[r] {
-			seenLen[r] = true
-			badLen = append(badLen, r)
-		}
-		if needType && !s["type"] && !a.impliesType(env, e) && !seenType[r] {
-			seenType[r] = true
-			badType = append(badType, r)
-		}
-	}
-	fl := &Flow[Facts]{C: cl, Info: a.info}
-	fl.Run(fd.Body, Facts{})
-	for _, u := range fl.Unsupported {
-		badLen = append(badLen, u)
-	}
-	return
-}
-
-func (a *c15) impliesType(env *c15env, e ast.Expr) bool {
-	e = unparen(e)
-	if o := objOf(a.info, e); o != nil && env.okVars[o] {
-		return true
-	}
-	if x, ok := e.(*ast.BinaryExpr); ok {
-		if x.Op == token.LAND {
-			return a.impliesType(env, x.X) || a.impliesType(env, x.Y)
-		}
-		if x.Op == token.LOR {
-			return a.impliesType(env, x.X) && a.impliesType(env, x.Y)
-		}
-	}
-	return false
-}
-
 // ---------------------------------------------------------------- R3
 
 func isFloat64(t types.Type) bool {
@@ -524,396 +227,4 @@ func isFloat64(t types.Type) bool {
 	return ok && b.Kind() == types.Float64
 }
 
-// scalarShape: f(a, b, e float64) bool returning |a-b| < e (or <=).
-func (a *c15) scalarShape(f *types.Func) bool {
-	fd := a.c.P.Decl(f)
-	if fd == nil || fd.Body == nil || len(fd.Body.List) != 1 {
-		return false
-	}
-	ps := paramVars(a.info, fd.Type)
-	if len(ps) != 3 {
-		return false
-	}
-	r, ok := fd.Body.List[0].(*ast.ReturnStmt)
-	if !ok || len(r.Results) != 1 {
-		return false
-	}
-	return a.absDiffLess(r.Results[0], func(e ast.Expr) int {
-		for i, p := range ps {
-			if p != nil && objOf(a.info, e) == p {
-				return i
-			}
-		}
-		return -1
-	})
-}
-
-// absDiffLess: e is math.Abs(x-y) < t (or <=, or t > …) with {x,y} = operands 0,1 and t operand 2.
-func (a *c15) absDiffLess(e ast.Expr, which func(ast.Expr) int) bool {
-	b, ok := unparen(e).(*ast.BinaryExpr)
-	if !ok {
-		return false
-	}
-	l, r := b.X, b.Y
-	switch b.Op {
-	case token.LSS, token.LEQ:
-	case token.GTR, token.GEQ:
-		l, r = r, l
-	default:
-		return false
-	}
-	if which(unparen(r)) != 2 {
-		return false
-	}
-	call, ok := unparen(l).(*ast.CallExpr)
-	if !ok || len(call.Args) != 1 || !isFuncIn(callee(a.info, call), "math", "Abs") {
-		return false
-	}
-	d, ok := unparen(call.Args[0]).(*ast.BinaryExpr)
-	if !ok || d.Op != token.SUB {
-		return false
-	}
-	x, y := which(unparen(d.X)), which(unparen(d.Y))
-	return (x == 0 && y == 1) || (x == 1 && y == 0)
-}
-
-func (a *c15) scalar() {
-	// the point comparison reached from Point.Similar: a repo function (Point, Point, float64) bool
-	m := a.c.P.Method("geom", "Point", "Similar")
-	fd := a.c.P.Decl(m)
-	if fd == nil {
-		return
-	}
-	ptT := a.c.P.NamedType("geom", "Point")
-	var ptSim *types.Func
-	ast.Inspect(fd.Body, func(n ast.Node) bool {
-		if call, ok := n.(*ast.CallExpr); ok {
-			if f := callee(a.info, call); f != nil && a.c.P.Decl(f) != nil {
-				sig := f.Type().(*types.Signature)
-				if sig.Recv() == nil && sig.Params().Len() == 3 && types.Identical(sig.Params().At(0).Type(), ptT) && types.Identical(sig.Params().At(1).Type(), ptT) {
-					ptSim = f
-				}
-			}
-		}
-		return true
-	})
-	if ptSim == nil {
-		a.c.Unk("C15.R3", "geom.(Point).Similar#point-comparison", fd.Pos(), "no (Point, Point, float64) comparison helper is called; inline shape not recognised")
-		return
-	}
-	pfd := a.c.P.Decl(ptSim)
-	name := a.c.P.FuncName(ptSim)
-	ps := paramVars(a.info, pfd.Type)
-	okShape := false
-	var why string
-	if len(pfd.Body.List) == 1 {
-		if r, ok := pfd.Body.List[0].(*ast.ReturnStmt); ok && len(r.Results) == 1 {
-			var conj []ast.Expr
-			var split func(e ast.Expr)
-			split = func(e ast.Expr) {
-				e = unparen(e)
-				if b, ok := e.(*ast.BinaryExpr); ok && b.Op == token.LAND {
-					split(b.X)
-					split(b.Y)
-					return
-				}
-				conj = append(conj, e)
-			}
-			split(r.Results[0])
-			axes := map[string]bool{}
-			bad := false
-			for _, cj := range conj {
-				ax := a.axisCompare(cj, ps)
-				if ax == "" {
-					bad = true
-					why = "conjunct `" + src(cj) + "` is not a same-axis |a-b|<tol comparison of the two points"
-					break
-				}
-				axes[ax] = true
-			}
-			if !bad && axes["X"] && axes["Y"] {
-				okShape = true
-			} else if !bad {
-				why = "not both axes compared"
-			}
-		}
-	} else {
-		why = "body is not a single return"
-	}
-	if okShape {
-		a.c.OK("C15.R3", name, pfd.Pos(), "X compared with X and Y with Y by |a-b|<tol")
-	} else if why == "body is not a single return" {
-		a.c.Unk("C15.R3", name, pfd.Pos(), "%s", why)
-	} else {
-		a.c.Bad("C15.R3", name, pfd.Pos(), "%s", why)
-	}
-	// list comparison helpers: functions ([]Point, []Point, float64) bool in package geom that are
-	// called from MultiPoint.Similar / LineString.Similar
-	for _, tn := range []string{"MultiPoint", "LineString"} {
-		mm := a.c.P.Method("geom", tn, "Similar")
-		mfd := a.c.P.Decl(mm)
-		if mfd == nil {
-			continue
-		}
-		var helper *types.Func
-		ast.Inspect(mfd.Body, func(n ast.Node) bool {
-			if call, ok := n.(*ast.CallExpr); ok {
-				if f := callee(a.info, call); f != nil && a.c.P.Decl(f) != nil && f.Type().(*types.Signature).Recv() == nil && len(call.Args) == 3 {
-					if _, ok := f.Type().(*types.Signature).Params().At(0).Type().Underlying().(*types.Slice); ok {
-						helper = f
-					}
-				}
-			}
-			return true
-		})
-		if helper == nil {
-			a.c.Unk("C15.R3", "geom.("+tn+").Similar#list-comparison", mfd.Pos(), "list comparison helper not found")
-			continue
-		}
-		a.listHelper(helper, ptSim)
-	}
-	// ring comparison helper: ([]Point, []Point, float64) bool called from Polygon.Similar
-	// (directly or inside a function literal)
-	if mfd := a.c.P.Decl(a.c.P.Method("geom", "Polygon", "Similar")); mfd != nil {
-		var ring *types.Func
-		ast.Inspect(mfd.Body, func(n ast.Node) bool {
-			if call, ok := n.(*ast.CallExpr); ok && len(call.Args) == 3 {
-				if f := callee(a.info, call); f != nil && a.c.P.Decl(f) != nil && f.Type().(*types.Signature).Recv() == nil {
-					sig := f.Type().(*types.Signature)
-					if sl, ok := sig.Params().At(0).Type().Underlying().(*types.Slice); ok && types.Identical(sl.Elem(), ptT) && types.Identical(sig.Params().At(0).Type(), sig.Params().At(1).Type()) {
-						ring = f
-					}
-				}
-			}
-			return true
-		})
-		if ring == nil {
-			a.c.Unk("C15.R3", "geom.(Polygon).Similar#ring-comparison", mfd.Pos(), "ring comparison helper not found")
-		} else {
-			a.ringHelper(ring, ptSim)
-		}
-	}
-}
-
-// ringHelper: cyclic comparison of two rings from their anchors.  The counted
-// loop must make at least len-1 steps (one per distinct vertex; the closing
-// vertex repeats the first), each step comparing a[ia] with b[ib] and then
-// advancing both cursors with the same successor function; no early exit
-// other than `return false`.
-func (a *c15) ringHelper(h, ptSim *types.Func) {
-	name := a.c.P.FuncName(h)
-	fd := a.c.P.Decl(h)
-	ps := paramVars(a.info, fd.Type)
-	sc := newFnScope(a.info, fd.Body)
-	if len(ps) < 2 || ps[0] == nil || ps[1] == nil {
-		a.c.Unk("C15.R3", name, fd.Pos(), "unnamed ring parameters")
-		return
-	}
-	var found bool
-	var bad string
-	for _, st := range fd.Body.List {
-		l := sc.loopOf(st)
-		if l == nil {
-			continue
-		}
-		// the loop that calls the point comparison
-		var cmp *ast.CallExpr
-		ast.Inspect(l.Body, func(n ast.Node) bool {
-			if call, ok := n.(*ast.CallExpr); ok && callee(a.info, call) == ptSim && len(call.Args) == 3 {
-				cmp = call
-			}
-			return true
-		})
-		if cmp == nil {
-			continue
-		}
-		found = true
-		if l.Lo.Of != nil || l.Hi.Of == nil || !(objOf(a.info, l.Hi.Of) == ps[0] || objOf(a.info, l.Hi.Of) == ps[1]) {
-			a.c.Unk("C15.R3", name, st.Pos(), "ring loop bounds %s are not of the form [c, len(ring)+k)", l.String())
-			return
-		}
-		if steps := l.Hi.K - l.Lo.K; steps < -1 {
-			bad = fmt.Sprintf("the ring loop %s makes len%+d steps but a closed ring of len points has len-1 distinct vertices: %d of them are never compared, so a ring differing only there is reported similar", l.String(), steps, -1-steps)
-		}
-		brk, cont, _ := earlyExits(l.Body)
-		if len(brk)+len(cont) > 0 {
-			bad = "ring loop has break/continue: vertices after it are not compared"
-		}
-		// cursors
-		var cur [2]types.Object
-		for k := 0; k < 2; k++ {
-			if ix, ok := unparen(cmp.Args[k]).(*ast.IndexExpr); ok && objOf(a.info, ix.X) == ps[k] {
-				cur[k] = objOf(a.info, ix.Index)
-			}
-		}
-		if cur[0] == nil || cur[1] == nil || cur[0] == cur[1] {
-			if l.Idx != nil && cur[0] == cur[1] && cur[0] == l.Idx {
-				bad = "rings are compared position by position: rotating the start vertex of a closed ring is not ignored"
-			} else {
-				a.c.Unk("C15.R3", name, cmp.Pos(), "comparison `%s` is not of the form pointCompare(a[ia], b[ib], tol) with two cursors", src(cmp))
-				return
-			}
-		} else {
-			var adv [2]*types.Func
-			for _, bs := range l.Body.List {
-				as, ok := bs.(*ast.AssignStmt)
-				if !ok || len(as.Lhs) != 1 || len(as.Rhs) != 1 {
-					continue
-				}
-				for k := 0; k < 2; k++ {
-					if objOf(a.info, as.Lhs[0]) == cur[k] {
-						if call, ok := unparen(as.Rhs[0]).(*ast.CallExpr); ok && len(call.Args) >= 1 && objOf(a.info, call.Args[0]) == cur[k] {
-							adv[k] = callee(a.info, call)
-						}
-					}
-				}
-			}
-			if adv[0] == nil || adv[1] == nil || adv[0] != adv[1] {
-				bad = "the two ring cursors are not both advanced by the same successor function on every step"
-			}
-			// anchors: each cursor starts at a position computed from its own ring alone, by the same
-			// function for both rings (the comparison is then symmetric and independent of the start vertex)
-			var anc [2]*types.Func
-			for k := 0; k < 2; k++ {
-				ds := sc.defs[cur[k]]
-				var init ast.Expr
-				for _, d := range ds {
-					if d != nil && !(l.Body.Pos() <= d.Pos() && d.End() <= l.Body.End()) {
-						init = d
-					}
-				}
-				call, ok := unparen(init).(*ast.CallExpr)
-				if init == nil || !ok {
-					continue
-				}
-				own := true
-				for _, arg := range call.Args {
-					ast.Inspect(arg, func(n ast.Node) bool {
-						if id, ok := n.(*ast.Ident); ok {
-							if o := objOf(a.info, id); o != nil && o == ps[1-k] {
-								own = false
-							}
-						}
-						return true
-					})
-				}
-				if !own {
-					bad = "the start position of the cursor over `" + ps[k].Name() + "` is computed from the other ring (`" + src(init) + "`): the two rings are not treated alike, so a.Similar(b) and b.Similar(a) can differ and a rotated copy of a ring with a repeated vertex is not recognised"
-				}
-				anc[k] = callee(a.info, call)
-			}
-			if bad == "" && (anc[0] == nil || anc[1] == nil || anc[0] != anc[1]) {
-				bad = "the two ring cursors do not start at anchors computed by one function of each ring"
-			}
-		}
-	}
-	switch {
-	case !found:
-		a.c.Unk("C15.R3", name, fd.Pos(), "ring comparison loop not recognised")
-	case bad != "":
-		a.c.Bad("C15.R3", name, fd.Pos(), "%s", bad)
-	default:
-		a.c.OK("C15.R3", name, fd.Pos(), "cyclic comparison from the anchors: at least len-1 steps, both cursors advanced by the same successor, no early exit")
-	}
-}
-
-// axisCompare returns "X"/"Y" if e compares p1.F with p2.F (same F) by |a-b|<tol.
-func (a *c15) axisCompare(e ast.Expr, ps []*types.Var) string {
-	if len(ps) != 3 {
-		return ""
-	}
-	axis := ""
-	which := func(x ast.Expr) int {
-		if objOf(a.info, x) == ps[2] && ps[2] != nil {
-			return 2
-		}
-		if sel, ok := x.(*ast.SelectorExpr); ok {
-			for i := 0; i < 2; i++ {
-				if ps[i] != nil && objOf(a.info, sel.X) == ps[i] {
-					if axis == "" {
-						axis = sel.Sel.Name
-					} else if axis != sel.Sel.Name {
-						axis = "!"
-					}
-					return i
-				}
-			}
-		}
-		return -1
-	}
-	if call, ok := unparen(e).(*ast.CallExpr); ok && len(call.Args) == 3 {
-		f := callee(a.info, call)
-		if f != nil && a.c.P.Decl(f) != nil && a.scalarShape(f) {
-			x, y, t := which(unparen(call.Args[0])), which(unparen(call.Args[1])), which(unparen(call.Args[2]))
-			if ((x == 0 && y == 1) || (x == 1 && y == 0)) && t == 2 && axis != "!" {
-				return axis
-			}
-			return ""
-		}
-	}
-	if a.absDiffLess(e, which) && axis != "!" {
-		return axis
-	}
-	return ""
-}
-
 var c15listDone = map[*types.Func]bool{}
-
-// listHelper: ([]Point, []Point, e) — element-wise, full range, identity index.
-func (a *c15) listHelper(h, ptSim *types.Func) {
-	name := a.c.P.FuncName(h)
-	if _, done := a.c.byKey[a.c.Prop+"|C15.R3|"+name]; done {
-		return
-	}
-	fd := a.c.P.Decl(h)
-	ps := paramVars(a.info, fd.Type)
-	sc := newFnScope(a.info, fd.Body)
-	found := false
-	var bad string
-	for _, st := range fd.Body.List {
-		l := sc.loopOf(st)
-		if l == nil {
-			continue
-		}
-		// must be full range over param 0 or 1
-		if !(sc.fullRange(l, &ast.Ident{Name: "_"}) || (ps[0] != nil && l.Hi.Of != nil && (objOf(a.info, l.Hi.Of) == ps[0] || objOf(a.info, l.Hi.Of) == ps[1]) && l.Hi.K == 0 && l.Lo.Of == nil && l.Lo.K == 0)) {
-			bad = "loop " + l.String() + " does not cover every element"
-			continue
-		}
-		// body: if !ptSim(p1s[i], p2s[i], e) { return false }
-		ast.Inspect(l.Body, func(n ast.Node) bool {
-			call, ok := n.(*ast.CallExpr)
-			if !ok || callee(a.info, call) != ptSim || len(call.Args) != 3 {
-				return true
-			}
-			okArgs := 0
-			for k := 0; k < 2; k++ {
-				arg := unparen(call.Args[k])
-				if ix, ok := arg.(*ast.IndexExpr); ok {
-					if off, ok := sc.idxOffset(ix.Index, l.Idx); ok && off == 0 && (objOf(a.info, ix.X) == ps[0] || objOf(a.info, ix.X) == ps[1]) {
-						okArgs++
-					}
-				} else if l.Val != nil && objOf(a.info, arg) == l.Val {
-					okArgs++
-				}
-			}
-			if okArgs == 2 && objOf(a.info, unparen(call.Args[0])) != objOf(a.info, unparen(call.Args[1])) || okArgs == 2 {
-				found = true
-			} else {
-				bad = "comparison `" + src(call) + "` does not pair element i with element i"
-			}
-			return true
-		})
-		brk, cont, _ := earlyExits(l.Body)
-		if len(brk)+len(cont) > 0 {
-			bad = "loop has break/continue"
-		}
-	}
-	if found && bad == "" {
-		a.c.OK("C15.R3", name, fd.Pos(), "element-wise over the full range")
-	} else if bad != "" {
-		a.c.Bad("C15.R3", name, fd.Pos(), "%s", bad)
-	} else {
-		a.c.Unk("C15.R3", name, fd.Pos(), "element-wise comparison loop not recognised")
-	}
-}
